@@ -141,6 +141,68 @@ class LayerBuilder:
                                  compu_internal_to_phys=mk(CompuInternalToPhys, compu_scales=[scale]),
                                  compu_phys_to_internal=None, internal_type=it, physical_type=pt)
 
+    def _scale(self, it, pt, lower=None, upper=None, num=None, den=None, const=None, upper_open=False):
+        from odxtools.compumethods.compuconst import CompuConst
+        from odxtools.compumethods.compurationalcoeffs import CompuRationalCoeffs
+        from odxtools.compumethods.compuscale import CompuScale
+        from odxtools.compumethods.limit import IntervalType, Limit
+        return mk(CompuScale,
+                  lower_limit=Limit(value_raw=str(lower), value_type=it, interval_type=IntervalType.CLOSED) if lower is not None else None,
+                  upper_limit=Limit(value_raw=str(upper), value_type=it,
+                                    interval_type=IntervalType.OPEN if upper_open else IntervalType.CLOSED) if upper is not None else None,
+                  compu_rational_coeffs=CompuRationalCoeffs(value_type=pt, numerators=list(num), denominators=list(den or [1]))
+                  if num is not None else None,
+                  compu_const=CompuConst(v=str(const), vt=None, data_type=pt) if const is not None else None,
+                  domain_type=it, range_type=pt)
+
+    def scale_linear(self, internal: str, physical: str, segments: Sequence[Any]):
+        """segments: (lower, upper, offset, factor) of the internal-to-physical mapping."""
+        from odxtools.compumethods.compuinternaltophys import CompuInternalToPhys
+        from odxtools.compumethods.compumethod import CompuCategory
+        from odxtools.compumethods.scalelinearcompumethod import ScaleLinearCompuMethod
+        from odxtools.odxtypes import DataType
+        it, pt = DataType[internal], DataType[physical]
+        scales = [self._scale(it, pt, lo, up, [off, fac]) for lo, up, off, fac in segments]
+        return ScaleLinearCompuMethod(category=CompuCategory.SCALE_LINEAR,
+                                      compu_internal_to_phys=mk(CompuInternalToPhys, compu_scales=scales),
+                                      compu_phys_to_internal=None, internal_type=it, physical_type=pt)
+
+    def rat_func(self, internal: str, physical: str, num: Sequence[float], den: Sequence[float],
+                 lower=None, upper=None):
+        from odxtools.compumethods.compuinternaltophys import CompuInternalToPhys
+        from odxtools.compumethods.compumethod import CompuCategory
+        from odxtools.compumethods.ratfunccompumethod import RatFuncCompuMethod
+        from odxtools.odxtypes import DataType
+        it, pt = DataType[internal], DataType[physical]
+        return RatFuncCompuMethod(category=CompuCategory.RAT_FUNC,
+                                  compu_internal_to_phys=mk(CompuInternalToPhys,
+                                                            compu_scales=[self._scale(it, pt, lower, upper, num, den)]),
+                                  compu_phys_to_internal=None, internal_type=it, physical_type=pt)
+
+    def scale_rat_func(self, internal: str, physical: str, segments: Sequence[Any]):
+        """segments: (lower, upper, numerators, denominators)."""
+        from odxtools.compumethods.compuinternaltophys import CompuInternalToPhys
+        from odxtools.compumethods.compumethod import CompuCategory
+        from odxtools.compumethods.scaleratfunccompumethod import ScaleRatFuncCompuMethod
+        from odxtools.odxtypes import DataType
+        it, pt = DataType[internal], DataType[physical]
+        scales = [self._scale(it, pt, lo, up, num, den) for lo, up, num, den in segments]
+        return ScaleRatFuncCompuMethod(category=CompuCategory.SCALE_RAT_FUNC,
+                                       compu_internal_to_phys=mk(CompuInternalToPhys, compu_scales=scales),
+                                       compu_phys_to_internal=None, internal_type=it, physical_type=pt)
+
+    def tab_intp(self, internal: str, physical: str, points: Sequence[Any]):
+        """points: (internal, physical) pairs, ascending."""
+        from odxtools.compumethods.compuinternaltophys import CompuInternalToPhys
+        from odxtools.compumethods.compumethod import CompuCategory
+        from odxtools.compumethods.tabintpcompumethod import TabIntpCompuMethod
+        from odxtools.odxtypes import DataType
+        it, pt = DataType[internal], DataType[physical]
+        scales = [self._scale(it, pt, lower=x, const=y) for x, y in points]
+        return TabIntpCompuMethod(category=CompuCategory.TAB_INTP,
+                                  compu_internal_to_phys=mk(CompuInternalToPhys, compu_scales=scales),
+                                  compu_phys_to_internal=None, internal_type=it, physical_type=pt)
+
     def texttable(self, internal: str, entries: Sequence[Any]):
         """entries: (lower, upper, text)"""
         from odxtools.compumethods.compuconst import CompuConst
